@@ -321,7 +321,7 @@ BodyDef == %s
 SubMap == %s
 SubmoduleDef(m, a) == IF <<m, a>> \\in DOMAIN SubMap THEN SubMap[<<m, a>>] ELSE ""
 ScriptSetDef == %s
-Emit == ~Finished \\/ PrintT(ToJson([script |-> script, err |-> err, events |-> events]))
+Emit == ~Finished \\/ PrintT(ToJson([script |-> script, err |-> err, soft |-> soft, events |-> events]))
 ====
 ''' % (', '.join('"%s"' % n for n in names), body, submap, ss)
 
